@@ -78,6 +78,14 @@ def judge(st):
             probs.append("deletescript returned True but the script still exists")
         if st.name == "setactive" and res == "b1" and after["active"] != (a[0] or None):
             probs.append("setactive returned True but the server's active script is %r" % after["active"])
+    # a refused call reports the code and text of ITS OWN reply (the answer to that call's command, not to an earlier one)
+    if status == b"NO" and res in ("b0", "none") and not st.faults and st.last and len(st.last) == 3 and \
+            (st.name != "renamescript" or before.get("version", True)):
+        want_code = (st.last[1] or b"").split()[0] if (st.last[1] or b"") else b""
+        want_text = st.last[2] or b""
+        if dec(field(out, "errcode")) != want_code or dec(field(out, "errmsg")) != want_text:
+            probs.append("the refusal carries code %r text %r, the client reports errcode %r errmsg %r" % (
+                want_code, want_text[:40], dec(field(out, "errcode")), dec(field(out, "errmsg"))[:40]))
     if field(out, "left") not in (None, "e"):
         probs.append("bytes left unread after the operation: %s" % field(out, "left")[:60])
     new_log = after["log"][len(before["log"]):]
